@@ -249,14 +249,29 @@ class P:
                 val = self.t[a:self.i]
             self.eat(";")
             return {"k": "type", "name": name, "val": val}
-        if self.isid("macro_rules"):
-            self.i += 1
-            self.eat("!")
-            self.ident()
-            self.skip_balanced()
+        if self.isid("macro_rules") and self.isp("!", 1):
+            self.i += 2
+            name = self.ident()
+            s, e = self.skip_balanced()
             if self.isp(";"):
                 self.i += 1
-            return None
+            return {"k": "macro_rules", "name": name, "body": self.t[s:e], "attrs": attrs}
+        if self.isid("mod") and self.isid(None, 1) and (self.isp(";", 2) or self.isp("{", 2)):
+            self.i += 1
+            name = self.ident()
+            if self.isp(";"):
+                self.i += 1
+                return {"k": "mod", "name": name, "body": None, "attrs": attrs}
+            s, e = self.skip_balanced()
+            return {"k": "mod", "name": name, "body": self.t[s:e], "attrs": attrs}
+        if self.isid() and self.isp("!", 1) and (self.isp("(", 2) or self.isp("{", 2) or self.isp("[", 2)):
+            # item-position macro invocation `name!(..);` / `name!{..}`: expanded by World (local macro_rules only)
+            name = self.ident()
+            self.i += 1
+            s, e = self.skip_balanced()
+            if self.isp(";"):
+                self.i += 1
+            return {"k": "macro_call", "name": name, "args": self.t[s:e], "attrs": attrs}
         if self.isid() and self.peek()[1] in ("use", "mod", "extern", "enum", "trait", "union"):
             self.skip_to((";", "{"))
             if self.isp("{"):
